@@ -515,6 +515,8 @@ def k_generate(run, case):
             tok = repr(v) if u >= .2 else str(int(v))
             if not tok.startswith("-0.") or True:
                 tok = respell(rng, tok)
+            if rng.random() < .08:
+                tok = ["inf", "infinity", "1e400", "+inf", "Inf"][rng.integers(5)]  # "no limit": a legal float for argparse
             tokens.append(tok)
         elif c["kind"] == "float2":
             tokens += [repr(round(float(abs(rng.normal())), 3)), str(int(rng.integers(0, 90)))]
